@@ -141,7 +141,21 @@ def parse_property_check(prop, tier, inputs, configs, flags, rule, level_note, p
     all_recs = []
     hist = {}
     for profile in profiles:
-        outs = run_impl(wd, inputs, configs, profile=profile)
+        try:
+            outs = run_impl(wd, inputs, configs, profile=profile, markers=True)
+        except ProcessDeath as d:
+            # the process died (signal / abort) while parsing a VALID input: that is a violation of every
+            # property checked here (a value must be returned), attributed to the record whose marker has no result
+            rec = next((r for r in inputs if r["id"] == d.record), None)
+            v = core.write_replay(prop, {"property": prop, "what": "process died (signal / abort) on a valid input",
+                                         "config": d.cfg, "profile": profile, "exit_code": d.rc,
+                                         "input": describe(rec) if rec else None, "output_tail": d.output})
+            core.write_evidence(prop, tier, "model_checking",
+                                {"states": 1, "transitions": 1, "traces_validated_against_impl": 0, "evaluations": len(inputs),
+                                 "distinct_nontrivial": len(inputs), "rule": rule, "samples": [describe(rec) if rec else {}],
+                                 "explanation": "run aborted: the implementation process died"}, time.time() - t0, 1,
+                                assumptions=[level_note])
+            core.finish(prop, [v], [])
         for k, v in path_histogram(outs).items():
             hist[k + ("" if profile == "release" else "@" + profile)] = v
         recs = merge(inputs, outs, "" if profile == "release" else "@" + profile)
